@@ -136,6 +136,9 @@ U('C17', 'C17_serial.cpp', defines=dict(DIM=1, NB=3, ELT='int', SLOT_CELLS=3), u
 U('C17', 'C17_serial.cpp', defines=dict(DIM=2, NB=2, ELT='int', SLOT_CELLS=4), unwind=7, timeout=1800, heap=128, slots=2)
 U('C17', 'C17_serial.cpp', defines=dict(DIM=1, NB=2, ELT='Tr', SLOT_CELLS=3), unwind=6, timeout=1800, heap=128, slots=2, tier='thorough')
 
+# explicit conversions between pointer types (raw -> explicitly-constructible fancy pointer): iterator and array_ref converting constructors
+for d in (2, 3):   # the 1-D iterator's explicit converting constructor does not instantiate at the pinned commit (it names a member data_ that does not exist): not an accepted program
+    U('C11', 'C11_convert.cpp', defines=dict(DIM=d, NB=3, SB=4 if d < 3 else 3), unwind=6, timeout=1200)
 # ---- C11 independence of the pointer type: the harness programs of C01/C02/C05/C07 instantiated over a minimal fancy pointer (VF_FANCY=1: no
 # conversion to/from T*) and a bounds-tracking pointer (VF_FANCY=2: asserts lo <= p < hi on every dereference).  Compilation of the
 # instantiation is the type checker's verdict that no raw-address assumption is needed; the solver proves the same functional specification
